@@ -17,8 +17,10 @@
   with an out-of-range index, `getTxs` returns `Out.panic` for a negative
   `size` (`make([]*Transaction, 0, size)` runs before the `size <= 0` test).
 
-  `fixed = false` is the code as it is.  `fixed = true` is the proposed repair of
-  `delTx` (a sub-tx hash of a deleted box also clears the slot it is indexed at).
+  `fixed = true` is the code as it is now: `delTx` as repaired by /repo commit 85d2f65 ("fix: delTx of a
+  box must clear the slots of its pooled sub-txs") — a sub-tx hash of a deleted box also clears the slot
+  it is indexed at.  `fixed = false` is the code BEFORE that commit (the sub-tx loop only deleted index
+  entries); it is kept for the refutation theorems and the `_partial` theorems of LemoProofs/C18.lean.
 -/
 namespace LemoModel.Pool
 
@@ -105,7 +107,9 @@ def delHash (p : Pool) (k : Hash) : Option Pool :=
     else none
   | none => some p
 
-/-- second half of `delTx`: the sub-tx loop. As coded (`fixed = false`) it only deletes index entries. -/
+/-- second half of `delTx`: the sub-tx loop. `fixed = true`: as coded now (clears the slot the sub-tx hash
+    is indexed at, then deletes the entry); `fixed = false`: as coded before commit 85d2f65 (only deletes
+    the index entry). -/
 def delSubs (fixed : Bool) (p : Pool) : List Sub → Option Pool
   | [] => some p
   | s :: r =>
